@@ -517,6 +517,13 @@ def _handle_expr(node: ast.expr, ctx: Context) -> sympy.Expr | None:
 def _handle_name(node: ast.Name, ctx: Context) -> sympy.Symbol | sympy.Expr:
     value = ctx.symbols.get(node.id)
     if value is None:
+        # Python looks a free name up in the closure before the module
+        nonlocals = inspect.getclosurevars(ctx.caller).nonlocals
+        if node.id in nonlocals:
+            if isinstance(closure_value := nonlocals[node.id], float | int):
+                return sympy.Float(closure_value)
+            msg = f"closure variable {node.id} is not a number"
+            raise NotImplementedError(msg)
         global_variables = dict(
             inspect.getmembers(
                 ctx.parent_module,
